@@ -11,7 +11,7 @@ import framework as F
 PROP = "C13"
 META = dict(
     technique="Coq refinement proof (SharedNode model -> per-output stream positions, all schedules) + coqc-evaluated model vs crate correspondence incl. backlog hook",
-    text="Machine-checked (Coq 8.16.1, no axioms) proof over a model of dasp_signal::bus written after the source (VecDeque backlog, BTreeMap of read offsets, next_key): for every finite schedule of send/next/pending_frames/drop on any number of outputs, no panic unless a dropped/unknown key is used, each output receives source frames attach, attach+1, ... (attach = source pull count at send), pending = pulled - position, the set of source frames pulled equals the set delivered (one pull per distinct frame, only on demand), and the backlog is exactly the pulled frames the slowest live output still lacks (empty when all caught up or none live). The model is tied to the crate by running it inside coqc on the same schedules (all to depth 7 over <=3 live outputs, random 500-op schedules over <=6) and comparing every frame, the source pull counter, every pending count and the hooked backlog length after every operation. A long-lag family (a leader pulls 65535..200000 frames, thorough 2^20+3, while a laggard pulls nothing) is too long for the list-based model inside coqc; there the verdict is theorem-derived: the observations are computed in closed form from c13_stream / c13_pending / c13_pull_once / c13_backlog and compared exactly with the crate (reduced instances run through both the model and the closed form).",
+    text="Machine-checked (Coq 8.16.1, no axioms) proof over a model of dasp_signal::bus written after the source (VecDeque backlog, BTreeMap of read offsets, next_key): for every finite schedule of send/next/pending_frames/drop on any number of outputs, no panic unless a dropped/unknown key is used, each output receives source frames attach, attach+1, ... (attach = source pull count at send), pending = pulled - position, the set of source frames pulled equals the set delivered (one pull per distinct frame, only on demand), and the backlog is exactly the pulled frames the slowest live output still lacks (empty when all caught up or none live). The model is tied to the crate by running it inside coqc on the same schedules (all to depth 7 over <=3 live outputs, random 500-op schedules over <=6) and comparing every frame, the source pull counter, every pending count and the hooked backlog length after every operation. A long-lag family (a leader pulls 65535..200000 frames, thorough 2^20+3, while a laggard pulls nothing) is too long for the list-based model inside coqc; there the verdict is theorem-derived: the observations are computed in closed form from c13_stream / c13_pending / c13_pull_once / c13_backlog and compared exactly with the crate (reduced instances run through both the model and the closed form). Sources: endless gen_mut, finite from_iter (look-ahead exhaustion) and gen.add_amp(from_iter) which keeps producing after it reports exhaustion; operations also include Output::is_exhausted (modelled after the source in Signal/BusExh.v, theorem c13_exhausted) and dropping the Bus handle while outputs live on; every output is pulled well past the end of the source.",
     note="Trusted: Coq kernel; the hand-written model (VecDeque as list, BTreeMap as association list, usize as nat: next_key wrap-around after 2^64 sends and frames_read+1 overflow are outside the model; source = function nat -> frame with a pull counter) validated only through the correspondence; harness + python generators; hook Bus::verif_backlog_len (cfg rustaudio_dasp_verif). Axioms: none.",
     design="6/C13")
 HEADER = "From Dasp Require Import Signal.BusRun."
@@ -42,16 +42,38 @@ def correspond(binpath, items, tag):
 
 def coq_op(o):
     return {"s": lambda: "ZSend", "n": lambda: f"ZNext {F.zlit(o[1])}", "p": lambda: f"ZPending {F.zlit(o[1])}",
-            "d": lambda: f"ZDrop {F.zlit(o[1])}", "R": lambda: f"ZRun {F.zlit(o[1])} {F.zlit(o[2])}"}[o[0]]()
+            "d": lambda: f"ZDrop {F.zlit(o[1])}", "R": lambda: f"ZRun {F.zlit(o[1])} {F.zlit(o[2])}",
+            "e": lambda: f"ZExh {F.zlit(o[1])}", "b": lambda: "ZDropBus"}[o[0]]()
 
 
 def build(item, ops=None):
+    """item: kind (family name), ops, optional src = [source kind, L] (default [0, 0]: endless gen_mut)"""
     it = dict(item)
     if ops is not None:
         it["ops"] = ops
-    it["line"] = " , ".join(" ".join(str(t) for t in o) for o in it["ops"])
-    it["coq"] = "BusCase [" + "; ".join(coq_op(o) for o in it["ops"]) + "]"
+    sk, sl = it.get("src", [0, 0])
+    body = " , ".join(" ".join(str(t) for t in o) for o in it["ops"])
+    ops_coq = "[" + "; ".join(coq_op(o) for o in it["ops"]) + "]"
+    if sk == 0:
+        it["line"] = body
+        it["coq"] = f"BusCase {ops_coq}"
+    else:
+        it["line"] = f"K {sk} {sl} ; {body}"
+        it["coq"] = f"BusCaseX {F.zlit(sk)} {F.zlit(sl)} {ops_coq}"
     return it
+
+
+def src_frame(src, j):
+    sk, sl = src
+    if sk == 0:
+        return 1000 + j
+    if sk == 1:
+        return 1000 + j if j < sl else 0
+    return 5000 + 7 * j + (100 + j if j < sl else 0)
+
+
+def src_exhausted(src, pulled):
+    return src[0] != 0 and pulled >= src[1]
 
 
 # ---------------------------------------------------------------------------------------------
@@ -61,13 +83,17 @@ class Sim:
     def __init__(self):
         self.pulled = 0
         self.pos = []  # per slot: position or None
+        self.bus = True
 
     def live(self):
         return [i for i, p in enumerate(self.pos) if p is not None]
 
     def apply(self, o):
         if o[0] == "s":
-            self.pos.append(self.pulled)
+            if self.bus:
+                self.pos.append(self.pulled)
+        elif o[0] == "b":
+            self.bus = False
         elif o[0] == "n":
             i = o[1]
             if i < len(self.pos) and self.pos[i] is not None:
@@ -107,28 +133,42 @@ class Sim:
 # position_k = attach_k + received_k is what Sim.pos tracks.  The same closed form is also compared
 # with the harness on EVERY case of the check, including all those run through the Coq model, which
 # ties the closed form to the model on the regular and the reduced long-lag (bridge) instances.
-def theorem_observations(ops):
+def theorem_observations(ops, src=(0, 0)):
     sim = Sim()
     out = []
     for o in ops:
         i = o[1] if len(o) > 1 else 0
         live = i < len(sim.pos) and sim.pos[i] is not None
         if o[0] == "s":
-            head = [1, len(sim.pos)]
+            head = [1, len(sim.pos)] if sim.bus else [9]
+        elif o[0] == "b":
+            head = [7] if sim.bus else [9]
         elif not live:
             head = [9]
         elif o[0] == "n":
-            head = [2, 1000 + sim.pos[i]]
+            head = [2, src_frame(src, sim.pos[i])]
         elif o[0] == "p":
             head = [3, sim.pulled - sim.pos[i]]
+        elif o[0] == "e":
+            # c13_exhausted: received everything pulled so far and the source reports exhaustion
+            head = [6, int(sim.pulled == sim.pos[i] and src_exhausted(src, sim.pulled))]
         elif o[0] == "d":
             head = [4]
         elif o[0] == "R":
-            head = [5, -1, -1, 0] if o[2] == 0 else [5, 1000 + sim.pos[i], 1000 + sim.pos[i] + o[2] - 1, 0]
+            if o[2] == 0:
+                head = [5, -1, -1, 0]
+            elif src[0] == 0:
+                head = [5, 1000 + sim.pos[i], 1000 + sim.pos[i] + o[2] - 1, 0]
+            else:
+                fs = [src_frame(src, sim.pos[i] + k) for k in range(o[2])]
+                head = [5, fs[0], fs[-1], sum(1 for a, b in zip(fs, fs[1:]) if b != a + 1)]
         sim.apply(o)
         lv = sim.live()
-        backlog = sim.pulled - min(sim.pos[k] for k in lv) if lv else 0
-        out.append(head + [sim.pulled, backlog] + [(-1 if p is None else sim.pulled - p) for p in sim.pos])
+        backlog = (sim.pulled - min(sim.pos[k] for k in lv) if lv else 0) if sim.bus else -3
+        snap = [sim.pulled, backlog] + [(-1 if p is None else sim.pulled - p) for p in sim.pos]
+        if src[0] != 0:
+            snap += [(-1 if p is None else int(sim.pulled == p and src_exhausted(src, sim.pulled))) for p in sim.pos]
+        out.append(head + snap)
     return out
 
 
@@ -138,7 +178,7 @@ def theorem_mismatch(item, obs_line):
         got = F.norm_obs_line(obs_line)
     except ValueError:
         return 0
-    exp = theorem_observations(item["ops"])
+    exp = theorem_observations(item["ops"], tuple(item.get("src", [0, 0])))
     if got == exp:
         return None
     for k, (g, e) in enumerate(zip(got, exp)):
@@ -208,14 +248,66 @@ def exhaustive(depth, maxlive):
     return out
 
 
+def exhaustive_x(depth, maxlive):
+    """as `exhaustive`, plus `b` (drop the Bus handle, once, after at least one send; no send afterwards);
+    is_exhausted of every live output is part of the observation after every op for finite sources."""
+    out = []
+
+    def go(ops, live, sends, bus):
+        if len(ops) == depth:
+            out.append(list(ops))
+            return
+        moved = False
+        if bus and len(live) < maxlive:
+            ops.append(["s"])
+            go(ops, live + [sends], sends + 1, bus)
+            ops.pop()
+            moved = True
+        if bus and sends > 0:
+            ops.append(["b"])
+            go(ops, live, sends, False)
+            ops.pop()
+            moved = True
+        for i in live:
+            moved = True
+            ops.append(["n", i])
+            go(ops, live, sends, bus)
+            ops.pop()
+            ops.append(["d", i])
+            go(ops, [j for j in live if j != i], sends, bus)
+            ops.pop()
+        if not moved:
+            out.append(list(ops))
+
+    go([], [], 0, True)
+    return out
+
+
+def exhaustive_x_families(tier):
+    """(source, depth, maxlive): finite from_iter sources (L = 0: exhausted from the start), the composite that
+    keeps producing after it reports exhaustion, and the endless source with the Bus handle dropped"""
+    if tier == "quick":
+        return [([1, 1], 6, 3), ([2, 1], 6, 3), ([0, 0], 6, 2), ([1, 0], 6, 2), ([1, 2], 6, 2)]
+    return [(src, 7, 3) for src in ([0, 0], [1, 0], [1, 1], [1, 2], [1, 3], [2, 0], [2, 1], [2, 3])]
+
+
 PROFILES = ["mixed", "lockstep", "never_pulled", "drop_slowest", "drop_fastest", "reattach", "monitor", "dead_slots"]
 
 
-def random_schedule(r, profile, nops, maxlive, maxsends):
+def random_schedule(r, profile, nops, maxlive, maxsends, exh=False, bus_drop_at=None):
+    """exh: sprinkle is_exhausted queries; bus_drop_at: op index at which the Bus handle is dropped"""
     sim = Sim()
     ops = []
 
     def emit(o):
+        if bus_drop_at is not None and sim.bus and len(ops) >= bus_drop_at and o[0] != "b":
+            ops.append(["b"])
+            sim.apply(["b"])
+            if o[0] == "s":
+                return
+        if exh and r.chance(1, 12) and sim.pos:
+            q = ["e", r.below(len(sim.pos) + (1 if r.chance(1, 10) else 0))]
+            ops.append(q)
         ops.append(o)
         sim.apply(o)
 
@@ -223,7 +315,7 @@ def random_schedule(r, profile, nops, maxlive, maxsends):
     emit(["s"])
     while len(ops) < nops:
         live = sim.live()
-        can_send = len(live) < maxlive and len(sim.pos) < maxsends
+        can_send = sim.bus and len(live) < maxlive and len(sim.pos) < maxsends
         if not live:
             if can_send:
                 emit(["s"])
@@ -277,7 +369,7 @@ def random_schedule(r, profile, nops, maxlive, maxsends):
             elif x < 16:
                 for i in live:  # drop everything, then attach again
                     emit(["d", i])
-                if len(sim.pos) < maxsends:
+                if sim.bus and len(sim.pos) < maxsends:
                     emit(["s"])
             elif x < 22:
                 emit(["d", r.choice(live)])
@@ -323,6 +415,9 @@ def gen_cases(rng, tier):
     depth = 7 if tier == "quick" else 9
     for ops in exhaustive(depth, 3):
         items.append(build(dict(kind=f"exh{depth}", ops=ops)))
+    for src, d, ml in exhaustive_x_families(tier):
+        for ops in exhaustive_x(d, ml):
+            items.append(build(dict(kind=f"exhx{d}_src{src[0]}_{src[1]}", ops=ops, src=src)))
     n_exh = len(items)
     n_rand = 160 if tier == "quick" else 2000
     rand = []
@@ -332,7 +427,16 @@ def gen_cases(rng, tier):
         nops = 500 if k % 4 else r.choice([20, 60, 150, 500])
         maxlive = r.choice([2, 3, 4, 5, 6, 6])
         maxsends = r.choice([6, 10, 16, 24])
-        rand.append(build(dict(kind=profile, ops=random_schedule(r, profile, nops, maxlive, maxsends))))
+        # every second schedule: a finite / composite source that gets exhausted, is_exhausted queries, and
+        # (every fourth) the Bus handle dropped somewhere in the first half
+        src, exh, bda = [0, 0], False, None
+        if (k // len(PROFILES)) % 2 == 1:
+            src = [r.choice([1, 1, 2]), r.choice([0, 1, 3, 10, 40, 120])]
+            exh = True
+        if (k // len(PROFILES)) % 4 >= 2:
+            bda = r.range(2, max(3, nops // 2))
+        rand.append(build(dict(kind=profile + ("_fin" if src[0] else "") + ("_busdrop" if bda is not None else ""), src=src,
+                               ops=random_schedule(r, profile, nops, maxlive, maxsends, exh, bda))))
     # the long schedules are spread evenly among the short ones (the coqc shards are contiguous slices)
     merged, stride = [], max(1, len(items) // max(1, len(rand)))
     ri = 0
@@ -343,6 +447,9 @@ def gen_cases(rng, tier):
         merged.append(it)
     merged += rand[ri:]
     return bridge_cases() + merged, n_exh
+
+
+HEAD_LEN = {1: 2, 2: 2, 3: 2, 4: 1, 9: 1, 8: 2, 5: 4, 6: 2, 7: 1}
 
 
 def analyse(item, obs_line):
@@ -356,8 +463,20 @@ def analyse(item, obs_line):
         t = [int(x) for x in ob.split()]
         if not t:
             continue
-        hl = {1: 2, 2: 2, 3: 2, 4: 1, 9: 1, 8: 2, 5: 4}.get(t[0], 1)
+        hl = HEAD_LEN.get(t[0], 1)
         pulls, backlog, pend = t[hl], t[hl + 1], t[hl + 2:]
+        if item.get("src", [0, 0])[0] != 0:
+            exh_flags = pend[len(pend) // 2:]
+            pend = pend[:len(pend) // 2]
+            if backlog > 0 and any(e == 1 for e in exh_flags):
+                flags.add("exhausted_while_sibling_lags")
+            if src_exhausted(item["src"], pulls):
+                flags.add("source_exhausted")
+                if t[0] in (2, 5) and prev is not None and pulls > prev[0]:
+                    flags.add("pull_after_exhaustion")
+        if backlog == -3:
+            flags.add("bus_dropped")
+            backlog = max([p for p in pend if p >= 0] or [0])
         if t[0] in (2, 5):
             i = o[1]
             if any(p >= 2 for j, p in enumerate(pend) if j != i):
@@ -437,7 +556,7 @@ def main(rep, tier, seed):
         _, model = F.coq_eval(TAG, HEADER, f"run_case ({small['coq']})")
         rep.violation(f"case{idx}", {
             "kind": "model/implementation disagreement: dasp_signal::bus does not behave as the model proved to feed every output a gap-free stream with backlog = slowest lag",
-            "case": {"kind": small["kind"], "ops": small["ops"]},
+            "case": {"kind": small["kind"], "ops": small["ops"], "src": small.get("src", [0, 0])},
             "harness_line": small["line"], "implementation_observations": out, "model_observations": model[-3000:],
             "observation_format": "per op: tag payload | source pulls | backlog (hook) | pending of every slot (-1 dropped); tags 1 send 2 next 3 pending 4 drop 9 slot empty 8 panic",
             "original_case_index": idx, "replay": "./check.py C13 --replay <this file>"})
@@ -492,11 +611,11 @@ def closed_form_fails(binpath):
 def report_closed_form(rep, binpath, it, name):
     small = F.shrink_ops(it, build, closed_form_fails(binpath))
     rc, out, _ = F.run_bin(binpath, [small["line"]])
-    exp = theorem_observations(small["ops"])
+    exp = theorem_observations(small["ops"], tuple(small.get("src", [0, 0])))
     k = theorem_mismatch(small, out[0]) if out else 0
     rep.violation(name, {
         "kind": "dasp_signal::bus contradicts the proved C13 theorems: an observation differs from the value c13_stream / c13_pending / c13_pull_once / c13_backlog determine (gap-free stream from the attach position, pending = pulled - position, backlog = pulled - slowest position)",
-        "case": {"kind": small["kind"], "ops": small["ops"]}, "harness_line": small["line"],
+        "case": {"kind": small["kind"], "ops": small["ops"], "src": small.get("src", [0, 0])}, "harness_line": small["line"],
         "first_differing_op_index": k, "first_differing_op": small["ops"][k] if k is not None and k < len(small["ops"]) else None,
         "implementation_observations": out,
         "theorem_derived_observations": ";".join(" ".join(map(str, e)) for e in exp),
@@ -516,7 +635,7 @@ def long_lag_phase(rep, binpath, ll):
     for o in out:
         try:
             for ob in F.norm_obs_line(o):
-                hl = {1: 2, 2: 2, 3: 2, 4: 1, 9: 1, 8: 2, 5: 4}.get(ob[0], 1)
+                hl = HEAD_LEN.get(ob[0], 1)
                 mb = max(mb, ob[hl + 1])
         except (ValueError, IndexError):
             pass
@@ -532,10 +651,11 @@ def finish(rep, info, n, nontriv, dist, samples, bad=(), tier="quick"):
         "trusted_base": F.TRUSTED_COMMON + [
             "axioms: none (every theorem of props/C13.v is closed under the global context)",
             "modelled, not verified: VecDeque as list, BTreeMap as association list with unique keys, usize as nat (next_key wrap-around after 2^64 sends and frames_read + 1 overflow outside the model), Rc<RefCell> sharing as a single state, the source as a function nat -> frame with a pull counter",
-            "hook Bus::verif_backlog_len() (cfg rustaudio_dasp_verif) reports buffer.len()"],
+            "hook Bus::verif_backlog_len() (cfg rustaudio_dasp_verif) reports buffer.len(); it lives on Bus, so after the Bus handle is dropped the backlog is observed only through the pending counts",
+            "the source's is_exhausted is modelled as a function of its pull count (true for from_iter and the composites used); harness sources are wrapped in a counting Signal that forwards is_exhausted"],
         "theorems": th, "axioms_reported": info.get("axioms", []),
         "evaluations": n, "distinct_nontrivial": nontriv,
-        "rule": f"every valid schedule of exactly {depth} send/next/drop operations over <= 3 simultaneously live outputs (all prefixes observed), plus random 500-operation schedules over <= 6 live outputs in 8 profiles (lock-step, never-pulling output, drop slowest, drop fastest, re-attach after all dropped, monitor, dead slots, mixed); after every operation: frame, source pull counter, backlog length (hook), pending_frames of every live output; non-trivial = some output has >= 2 pending frames while another one pulls, or the slowest live output is dropped while the backlog is non-empty. Long-lag family (leader pulls 65535..200000 frames, thorough 2^20+3, while a laggard pulls nothing; mid-way attach; laggard reads 3 / all; laggard or leader dropped): verdict is THEOREM-DERIVED, not a model run: the observations are computed in closed form from c13_stream/c13_attach/c13_pending/c13_pull_once/c13_backlog and compared exactly; reduced instances (300, 2500 frames) go through both the Coq model and the closed form, and the closed form is also compared on every model-run case",
+        "rule": f"every valid schedule of exactly {depth} send/next/drop operations over <= 3 simultaneously live outputs (all prefixes observed), plus random 500-operation schedules over <= 6 live outputs in 8 profiles (lock-step, never-pulling output, drop slowest, drop fastest, re-attach after all dropped, monitor, dead slots, mixed); after every operation: frame, source pull counter, backlog length (hook), pending_frames of every live output; additionally every schedule of 6 send/next/drop/drop-the-Bus-handle operations over finite from_iter sources (0, 1, 2 frames), the composite gen.add_amp(from_iter) and the endless source, with is_exhausted of every live output observed after every operation; every second random schedule runs on a finite/composite source with is_exhausted queries, every second pair drops the Bus handle in its first half; non-trivial = some output has >= 2 pending frames while another one pulls, or the slowest live output is dropped while the backlog is non-empty. Long-lag family (leader pulls 65535..200000 frames, thorough 2^20+3, while a laggard pulls nothing; mid-way attach; laggard reads 3 / all; laggard or leader dropped): verdict is THEOREM-DERIVED, not a model run: the observations are computed in closed form from c13_stream/c13_attach/c13_pending/c13_pull_once/c13_backlog and compared exactly; reduced instances (300, 2500 frames) go through both the Coq model and the closed form, and the closed form is also compared on every model-run case",
         "samples": samples, "input_distribution": dist, "disagreements": len(bad),
         "explanation": "theorems: invariant in every reachable state, per-output stream = source frames from the attach position, pending = pulled - position, source pulled once per distinct frame, backlog = slowest lag, no panic on well-formed schedules; tie: the model's executable definitions run by coqc on the same schedules as the real bus, all observations compared exactly",
     }
@@ -551,7 +671,7 @@ def replay(path):
     rc, out, _ = F.run_bin(binpath, [it["line"]])
     print("case:", it["line"])
     print("implementation:", out)
-    exp = theorem_observations(it["ops"])
+    exp = theorem_observations(it["ops"], tuple(it.get("src", [0, 0])))
     print("theorem-derived:", ";".join(" ".join(map(str, e)) for e in exp))
     k = theorem_mismatch(it, out[0]) if out else 0
     print("closed form:", "AGREE" if k is None else f"DISAGREE at op {k} {it['ops'][k] if k < len(it['ops']) else ''}")
